@@ -6,6 +6,7 @@
 From Oras Require Import Base.Prelude Generated.GC04 Model.CopySpec Model.CopyTop Model.CopyOpt
   Proofs.CopySpec Proofs.CopyAcct Proofs.CopyOpt.
 Local Open Scope nat_scope.
+From Oras Require Model.CopyImpl Proofs.CopyImplBase Properties.C02_protocol.
 
 (* at every instant (every prefix of every accepted trace) at most K source reads
    (Fetch ... Close) and at most K destination operations (Exists, Push/PushReference,
@@ -32,6 +33,26 @@ Theorem C04_single_transfer :
     cnt (is_fetch n) tr <= 1 /\ cnt (is_push n) tr <= 1.
 Proof. exact single_transfer_lemma. Qed.
 Print Assumptions C04_single_transfer.
+
+(* ... within copyGraph.  The whole call can read a node once more in Copy's PROLOGUE (known
+   finding prologue-read-twice): a non-manifest root resolved through a ReferenceFetcher, and the
+   manifest + config blob read by WithTargetPlatform on an image-manifest root, are read there
+   without feeding the cache and fetched again while copying.  Refutation of the clause for the
+   whole call, and the bound that does hold: *)
+Theorem C04_single_fetch_refuted_by_prologue :
+  exists g c d0 tr st pro n,
+    accepts g c d0 tr = Some st /\ returned st = Some true /\
+    pro = prologue_reads true (c_root c) None /\ g_ismf g n = false /\
+    reads_in_call n pro tr = 2.
+Proof. exact prologue_read_twice_refuted. Qed.
+Print Assumptions C04_single_fetch_refuted_by_prologue.
+
+Theorem C04_reads_in_call_bound :
+  forall (g : graph) (c : cfg) (d0 : list node) (tr : list event) (st : state) (n : node)
+         (pro : list node),
+    accepts g c d0 tr = Some st -> reads_in_call n pro tr <= count_occ Nat.eq_dec pro n + 1.
+Proof. exact reads_in_call_bound. Qed.
+Print Assumptions C04_reads_in_call_bound.
 
 (* every callback is invoked at most once per node *)
 Theorem C04_callbacks_at_most_once :
@@ -163,3 +184,59 @@ Theorem C04_callback_error_aborts_any_callbacks :
     accepts_opt cs g c d0 tr = Some (st, full) -> In (CbFail k n) tr -> returned st <> Some true.
 Proof. exact callback_error_opt. Qed.
 Print Assumptions C04_callback_error_aborts_any_callbacks.
+
+(* ---- audit follow-up ---- *)
+
+(* the in-flight bound stated on the TRACE: at every prefix of an accepted trace the source reads
+   begun (Fetch called) minus those closed is at most K; likewise destination operations begun
+   (Exists, Push/PushReference, Tag, Mount called) minus returned -- the latter as long as no
+   callback has failed (after a failing PreCopy inside Mount the model drops that Mount at once
+   while the real call is still returning: there only the oracle's gauge and the permit theorems
+   below speak) *)
+Theorem C04_inflight_on_trace :
+  forall (g : graph) (c : cfg) (d0 : list node) (tr1 tr2 : list event) (st : state),
+    accepts g c d0 (tr1 ++ tr2) = Some st ->
+    cnt is_src_open tr1 - cnt is_src_close tr1 <= c_K c /\
+    (cnt is_cbfail tr1 = 0 -> cnt is_dst_open tr1 - cnt is_dst_close tr1 <= c_K c).
+Proof. exact inflight_trace_lemma. Qed.
+Print Assumptions C04_inflight_on_trace.
+
+(* PreCopy precedes the BEGIN of the push of a node that is not yet in the destination (a push
+   without PreCopy is only the re-push with the reference of a present / mounted ReferencePusher root) *)
+Theorem C04_precopy_before_push_begin :
+  forall (g : graph) (c : cfg) (d0 : list node) (tr1 : list event) (n : node) (ref : bool)
+         (tr2 : list event) (st : state),
+    accepts g c d0 (tr1 ++ PuB n ref :: tr2) = Some st ->
+    exists st1, accepts g c d0 tr1 = Some st1 /\
+                (has g (dst st1) n = false -> In (Cb CPre n) tr1).
+Proof. exact pre_before_push_begin. Qed.
+Print Assumptions C04_precopy_before_push_begin.
+
+(* reading of the clause "exactly one PreCopy followed by exactly one PostCopy or OnMounted":
+   a mounted node gets OnMounted and NEITHER PreCopy nor PostCopy (mountOrCopyNode calls PreCopy
+   only when the last candidate falls back to uploading) *)
+Theorem C04_mounted_no_precopy_postcopy :
+  forall (g : graph) (c : cfg) (d0 : list node) (tr : list event) (st : state) (n : node),
+    accepts g c d0 tr = Some st -> In (MtE n MMounted) tr ->
+    ~ In (Cb CPre n) tr /\ ~ In (Cb CPost n) tr.
+Proof. exact mounted_no_pre_post. Qed.
+Print Assumptions C04_mounted_no_precopy_postcopy.
+
+(* ---- the limiter hand-off itself (syncutil.Go / LimitedRegion.Start / End, semaphore permits):
+   proved on the protocol model Model/CopyImpl.v in Properties/C02_protocol.v (tied to the real
+   syncutil / status.Tracker by C02's protocol harness cmd/goimpl); restated here so that C04's
+   proof layer depends on them.  Permits are conserved (free + holders = K, a finished task holds
+   none) and the operations in flight never exceed the permits held, hence K. *)
+Theorem C04_permits_conserved :
+  forall succ K ext roots s, CopyImplBase.Reachable succ K ext roots s ->
+    CopyImpl.free s + CopyImpl.holders s = K /\ CopyImpl.holders s <= K /\
+    (forall t, CopyImpl.is_fin (CopyImpl.t_pc (CopyImpl.tasks s t)) = true ->
+               CopyImpl.t_holds (CopyImpl.tasks s t) = false).
+Proof. exact C02_protocol.C04_permits_conserved. Qed.
+Print Assumptions C04_permits_conserved.
+
+Theorem C04_inflight_bounded_by_permits :
+  forall succ K ext roots s, CopyImplBase.Reachable succ K ext roots s ->
+    CopyImpl.inflight s <= CopyImpl.holders s /\ CopyImpl.inflight s <= K.
+Proof. exact C02_protocol.C04_inflight_bounded. Qed.
+Print Assumptions C04_inflight_bounded_by_permits.
